@@ -14,7 +14,9 @@ EXPLANATION = (
     "rejection measures the lifetime discipline and not a typo. Everything is compiled against the rlib built from "
     "/repo's working tree in this run. Supporting MIR rules: C04.R1 every unsafe impl Send/Sync carries the bounds of "
     "its payload; C04.R2 the functions that launder a lifetime through unsafe are enumerated and every public one is "
-    "exercised by the corpus. Not decided: programs outside the generated grammar; unsafe callers.")
+    "exercised by the corpus; C04.R3 every lifetime in the return type of a safe function is anchored in its arguments "
+    "(type-level, from the resolved signatures); C04.R4 a by-value handle argument keeps its lifetime in a handle-returning "
+    "function. Not decided: programs outside the generated grammar; unsafe callers.")
 EXPLORATION_RULE = (
     "one evaluation = one generated program function judged by rustc (witnesses must be rejected, twins accepted); "
     "distinct = distinct (escape route, handle, producer) triples; non-trivial = the twin of the witness compiles, i.e. "
@@ -74,6 +76,32 @@ def run_corpus(ctx, tier):
                      "reused: \n" + w.body, site="borrow witness", detail=detail)
             if len(samples) < 6 and ok:
                 samples.append({"route": w.route, "handle": w.handle, "program": w.body, "rustc": sorted(set(classes)), "twin": w.twin})
+        # ---- owner-overwrite witnesses
+        ow = [(f"o{i:02d}", wb) for i, (n, wb, tb) in enumerate(W.OWNER_WITNESSES)]
+        ot = [(f"o{i:02d}_twin", tb) for i, (n, wb, tb) in enumerate(W.OWNER_WITNESSES)]
+        src, ranges = W.render(ot)
+        p = os.path.join(h.scratch, "owner_twins.rs")
+        open(p, "w").write(src)
+        rc, diags = h.rustc(p)
+        if rc != 0 or diags:
+            raise HarnessBroken(f"CONTROL-BROKEN: owner-overwrite twins do not compile: {[(d['code'], d['msg'][:100]) for d in diags[:3]]}")
+        src, ranges = W.render(ow)
+        p = os.path.join(h.scratch, "owner_witnesses.rs")
+        open(p, "w").write(src)
+        rc, diags = h.rustc(p)
+        per, outside = W.judge(diags, ranges)
+        if outside:
+            raise HarnessBroken(f"CONTROL-BROKEN: diagnostics outside any owner-overwrite witness: {[(d['code'], d['msg'][:100]) for d in outside[:3]]}")
+        stats["programs"] += 2 * len(ow)
+        for i, (n, wb, tb) in enumerate(W.OWNER_WITNESSES):
+            classes = per.get(f"o{i:02d}", [])
+            if classes and not (set(classes) & W.BORROW_CODES):
+                raise HarnessBroken(f"CONTROL-BROKEN: owner-overwrite witness `{n}` fails with unexpected {classes}")
+            ok = bool(set(classes) & W.BORROW_CODES)
+            ctx.inst(R, n, ok, f"rejected by rustc: {sorted(set(classes))}; twin accepted" if ok else
+                     "this program COMPILES: safe code stores an owned BumpScope value into the storage of an owning arena; the same "
+                     "chunks are then owned twice (double free) or borrowed memory changes its owner (use after free)\n" + wb,
+                     site="owner-overwrite witness", detail=None if ok else {"witness_source": wb, "twin_source": tb})
         # ---- trait-bound witnesses
         fns = [(f"t{i:02d}", wb.replace("{{", "{").replace("}}", "}")) for i, (n, wb, tb) in enumerate(W.TRAIT_WITNESSES)]
         tw = [(f"t{i:02d}_twin", tb.replace("{{", "{").replace("}}", "}")) for i, (n, wb, tb) in enumerate(W.TRAIT_WITNESSES)]
@@ -185,6 +213,80 @@ def r2_laundering_sites(ctx, P):
     ctx.floor(R, "lifetime-laundering functions", n, 10)
 
 
+# ADTs that point into arena memory (their lifetime parameter is the only thing that keeps the memory alive for them)
+HANDLE = re.compile(r"\b(BumpBox|FixedBumpVec|FixedBumpString|BumpVec|BumpString|MutBumpVec|MutBumpVecRev|MutBumpString|"
+                    r"IntoIter|Drain|Splice|ExtractIf|BumpScope|BumpScopeGuard|BumpClaimGuard|Stats|Chunk|ChunkPrevIter|"
+                    r"ChunkNextIter|AnyStats|AnyChunk|AnyChunkPrevIter|AnyChunkNextIter|Checkpoint)\b")
+
+
+def _sig_fns(P):
+    for it in P.facts["items"]:
+        if it["kind"] in ("Fn", "AssocFn") and "out_regions" in it and not it.get("unsafe"):
+            yield it
+
+
+def r3_output_lifetimes_anchored(ctx, P):
+    R = "C04.R3"
+    ctx.rule(R, "every lifetime in the return type of a safe function is anchored: it occurs in an argument type, or in a "
+                "bound of a type parameter that occurs in an argument type, or is 'static; otherwise the caller may pick "
+                "'static for a value that points into the arena. Functions without arguments (empty-handle constructors) "
+                "and crate-private lifetime choosers are listed, not flagged")
+    n = nun = 0
+    for it in _sig_fns(P):
+        ins = set(x for l in it["in_regions"] for x in l)
+        inparams = set(x for l in it["in_params"] for x in l)
+        for r in it["out_regions"]:
+            n += 1
+            if r == "static" or r in ins:
+                continue
+            if any(r in pr["regions"] and (set(pr["params"]) & inparams) for pr in it["pred_regions"]):
+                continue
+            nun += 1
+            where = f"{it.get('file')}:{it.get('line')}"
+            if not it["inputs"]:
+                ctx.inst(R, it["path"], True, f"returns {it['output']} with a free lifetime but takes no argument: it cannot "
+                         "point into any arena (empty-handle constructor)", where=where, site="no-argument constructor")
+            elif not it.get("reachable"):
+                ctx.inst(R, it["path"], True, f"crate-private lifetime chooser ({it['inputs']} -> {it['output']}): not nameable "
+                         "from outside; every public caller's own signature is subject to this rule", where=where,
+                         site="crate-private chooser")
+            else:
+                ctx.inst(R, it["path"], False, f"safe public function ({', '.join(it['inputs'])}) -> {it['output']}: the lifetime "
+                         f"of the result ({r}) is not tied to any argument, so safe code can obtain the result with 'static "
+                         "and use it after the scope ended / the arena was reset or dropped", where=where,
+                         site="unanchored output lifetime")
+    ctx.floor(R, "output lifetimes of safe functions examined", n, 500 if ctx.config != "nodefault" else 350)
+    ctx.floor(R, "unanchored output lifetimes classified", nun, 15)
+
+
+def r4_handle_inputs_connected(ctx, P):
+    R = "C04.R4"
+    ctx.rule(R, "a safe function that takes an arena handle by value and returns an arena handle or reference keeps the "
+                "handle's lifetime: it occurs in the return type or in a bound of a type parameter of the return type "
+                "(otherwise memory of a short scope can be re-labelled with a longer-lived allocator's lifetime)")
+    n = 0
+    for it in _sig_fns(P):
+        out = it["output"]
+        if not (HANDLE.search(out) or "&" in out):
+            continue
+        conn = set(it["out_regions"]) | set(it.get("out_alias_regions", []))
+        outp = set(it["out_params"])
+        for pr in it["pred_regions"]:
+            if set(pr["params"]) & outp:
+                conn |= set(pr["regions"])
+        for ty, regs in zip(it["inputs"], it["in_regions"]):
+            if ty.startswith("&") or not HANDLE.search(ty):
+                continue
+            for r in regs:
+                n += 1
+                ok = r == "static" or r in conn
+                ctx.inst(R, it["path"], ok, f"argument {ty}: lifetime {r} reappears in {out}" if ok else
+                         f"argument {ty}: its lifetime {r} does not reappear in the result {out} nor in the bounds of the "
+                         "result's type parameters: the memory it owns gets a lifetime unrelated to the scope it came from",
+                         where=f"{it.get('file')}:{it.get('line')}", site=f"handle argument {HANDLE.search(ty).group(1)} {r}")
+    ctx.floor(R, "by-value handle arguments of handle-returning functions", n, 50 if ctx.config != "nodefault" else 35)
+
+
 def PRODUCER_TEXT():
     return [(n, e, s) for (n, e, s) in W.PRODUCERS + W.MUT_PRODUCERS] + \
            [("route", t[3] + t[4], "") for t in W.escape_templates()] + [("conv", w + t, "") for _, w, t in W.CONVERSION_WITNESSES]
@@ -201,4 +303,6 @@ def run(ctx, progs):
         ctx.config = lab
         r1_unsafe_auto_traits(ctx, P)
         r2_laundering_sites(ctx, P)
+        r3_output_lifetimes_anchored(ctx, P)
+        r4_handle_inputs_connected(ctx, P)
     ctx.config = None
